@@ -56,15 +56,16 @@ SCENARIOS = {
         "counts": ["C02", "C01"],
     },
     "C03": {
-        "modules": ["C03", "Reachable"],
-        "theorems": ["C03_total_reachable", "C03_filter_exact_reachable", "C03_monotone_reachable", "C03_wellformed", "C03_total", "C03_filter_exact", "C03_default_budget", "C03_by_item_absent",
+        "modules": ["C03", "Reachable", "C03Bq"],
+        "theorems": ["C03_by_item_eq_by_vector_bq", "C03_by_item_eq_by_vector_reachable", "C03_total_reachable", "C03_filter_exact_reachable", "C03_monotone_reachable", "C03_wellformed", "C03_total", "C03_filter_exact", "C03_default_budget", "C03_by_item_absent",
                      "C03_by_item_present", "C03_by_item_eq_by_vector", "C03_prefix", "C03_monotone", "C03_budget_le"],
         "quick": [hist("c03", 50, extra=T1)],
         "thorough": [hist("c03", 1000, "thorough", extra=T1), hist("c03", 200, "thorough")],
         "counts": ["C03"],
     },
     "C07": {
-        "theorems": ["C07_prefix_index", "C07_prefix_kind", "C07_range", "C07_frame_add", "C07_frame_append", "C07_frame_del",
+        "modules": ["C07", "C07Nns"],
+        "theorems": ["C07_answers_nns", "C07_answers_build_nns", "C07_answers_nns_reachable", "C07_fuel_mono", "C07_prefix_index", "C07_prefix_kind", "C07_range", "C07_frame_add", "C07_frame_append", "C07_frame_del",
                      "C07_frame_clear", "C07_frame_prepare", "C07_frame_build", "C07_answers", "C07_dump_build"],
         "quick": [hist("c07", 50, extra=T1), hist("c07", 10), hist("c18", 20, extra=T1)],
         "thorough": [hist("c07", 1200, "thorough", extra=T1), hist("c07", 300, "thorough")],
